@@ -36,6 +36,7 @@ type Leaf struct {
 	Period time.Duration `mapstructure:"period"`
 	Ratio  float64       `mapstructure:"ratio"`
 	Secure bool          `mapstructure:"secure"`
+	MaxCon int           `mapstructure:"max-conn"`
 }
 
 type LeafU struct {
@@ -47,6 +48,7 @@ type DirectLeaf struct {
 	Host   string        `mapstructure:"host"`
 	Port   int           `mapstructure:"port"`
 	Period time.Duration `mapstructure:"period"`
+	Retry  int           `mapstructure:"retry_2nd"`
 }
 
 type Mid struct {
@@ -60,6 +62,7 @@ type Top struct {
 	Count  int        `mapstructure:"count"`
 	Mid    Mid        `mapstructure:"mid"`
 	Direct DirectLeaf `mapstructure:"direct_leaf"`
+	Level  string     `mapstructure:"log-level"`
 }
 
 func (c *Leaf) Validate() error {
@@ -168,8 +171,8 @@ type loadEvent struct {
 }
 
 func validDefaults() *Top {
-	return &Top{Title: "default title", Count: 1, Mid: Mid{Name: "default name", Inner: Leaf{Host: "default-host", Port: 80, Period: time.Second, Ratio: 0.5},
-		InnerU: LeafU{Host: "u-host", Port: 81}}, Direct: DirectLeaf{Host: "direct-host", Port: 82, Period: time.Minute}}
+	return &Top{Title: "default title", Count: 1, Mid: Mid{Name: "default name", Inner: Leaf{Host: "default-host", Port: 80, Period: time.Second, Ratio: 0.5, MaxCon: 10},
+		InnerU: LeafU{Host: "u-host", Port: 81}}, Direct: DirectLeaf{Host: "direct-host", Port: 82, Period: time.Minute, Retry: 3}, Level: "info"}
 }
 
 func has(list []string, x string) bool {
